@@ -11,6 +11,7 @@ pub mod fixed;
 pub mod forms;
 pub mod gens;
 pub mod limb;
+mod surface;
 
 use vmodel::*;
 
@@ -51,5 +52,7 @@ fn subchecks(_ctx: &Ctx) -> Vec<SubCheck> {
     boxed_uint!(v, 25_000; 1, 2, 3, 4, 8, 16);
     v.push(SubCheck::new("boxed/prim-rhs/u8..u128", 120_000, boxed::boxed_prim_case(40)).tape(120).thorough(10));
     v.extend(extra::subchecks(_ctx));
+    // API-surface audit (/verif/audit/B.md): forms, routes and widths no sub-check above reaches
+    v.extend(surface::subchecks(_ctx));
     v
 }
